@@ -2,7 +2,7 @@
    chain invariant CI = SI (x/staking store) /\ PI (pending list). *)
 From stdpp Require Import gmap.
 Require Import Model.Base Model.Ante Model.Validate Model.Current Model.State Model.Staking Model.Slashing Model.Poa Model.App.
-Require Import proofs.Inv proofs.InvIdx proofs.L1Effects proofs.InvPres.
+Require Import proofs.Inv proofs.InvIdx proofs.L1Effects proofs.InvPres proofs.EvBasic.
 Open Scope Z_scope.
 
 Definition CI (c : chain) : Prop := SI (stk c) /\ PI c.
@@ -196,11 +196,56 @@ Proof.
   split; [exact HS|constructor; auto].
 Qed.
 
-Lemma begin_block_CI c votes absent c' : CI c -> begin_block c votes absent = inl c' -> CI c'.
+Lemma handle_evidence_CI c e c' : CI c -> handle_evidence c e = Some c' -> CI c'.
+Proof.
+  intros HCI H. apply handle_evidence_cases in H as [->|(id & v & i & c1 & s2 & _ & _ & _ & _ & _ & _ & Es & Hj & ->)]; [exact HCI|].
+  apply CI_sl. pose proof (slash_CI _ _ _ _ _ HCI Es) as [HS1 HP1]. destruct Hj as [[_ ->]|[_ Ej]].
+  - split; [exact HS1|]. eapply PI_transfer; [exact HP1|reflexivity|apply same_ids_cons_refl].
+  - split; [cbn; eapply jail_SI; eauto|]. eapply PI_transfer; [exact HP1|reflexivity|cbn; eapply jail_same_ids; eauto].
+Qed.
+
+Lemma handle_evidences_CI evs c c' : CI c -> handle_evidences evs c = Some c' -> CI c'.
+Proof. apply (handle_evidences_preserves CI). intros; eapply handle_evidence_CI; eauto. Qed.
+
+(* what an evidence entry leaves alone *)
+Lemma jail_frame s k s' : jail s k = Some s' ->
+  by_cons s' = by_cons s /\ last_pow s' = last_pow s /\ ubq s' = ubq s /\ params s' = params s /\ dels s' = dels s /\ last_total s' = last_total s.
+Proof.
+  unfold jail. destruct (by_cons s !! k) as [id|]; [|discriminate]. destruct (vals s !! id) as [v|]; [|discriminate].
+  destruct (v_jailed v); [discriminate|]. intros [= <-]. repeat split.
+Qed.
+
+Definition ev_frame (c c' : chain) : Prop :=
+  poa c' = poa c /\ seqs c' = seqs c /\ height c' = height c /\ now c' = now c /\
+  by_cons (stk c') = by_cons (stk c) /\ last_pow (stk c') = last_pow (stk c) /\ ubq (stk c') = ubq (stk c) /\ params (stk c') = params (stk c) /\
+  dels (stk c') = dels (stk c) /\ last_total (stk c') = last_total (stk c) /\ slparams (sl c') = slparams (sl c) /\ bitmaps (sl c') = bitmaps (sl c).
+
+Lemma ev_frame_refl c : ev_frame c c.
+Proof. repeat split. Qed.
+
+Lemma ev_frame_trans a b d : ev_frame a b -> ev_frame b d -> ev_frame a d.
+Proof. unfold ev_frame. intros H1 H2. intuition congruence. Qed.
+
+Lemma handle_evidence_frame c e c' : handle_evidence c e = Some c' -> ev_frame c c'.
+Proof.
+  intros H. apply handle_evidence_cases in H as [->|(id & v & i & c1 & s2 & _ & _ & _ & _ & _ & _ & Es & Hj & ->)]; [apply ev_frame_refl|].
+  pose proof (slash_frame _ _ _ _ _ Es) as (F1 & F2 & F3 & F4 & F5 & F6 & F7 & F8 & F9 & F10 & F11).
+  destruct Hj as [[_ ->]|[_ Ej]].
+  - unfold ev_frame. cbn. rewrite F1. repeat split; assumption.
+  - apply jail_frame in Ej as (J1 & J2 & J3 & J4 & J5 & J6). unfold ev_frame. cbn. rewrite F1. repeat split; congruence.
+Qed.
+
+Lemma handle_evidences_frame evs c c' : handle_evidences evs c = Some c' -> ev_frame c c'.
+Proof.
+  apply (handle_evidences_rel ev_frame); [apply ev_frame_refl|apply ev_frame_trans|]. intros; eapply handle_evidence_frame; eauto.
+Qed.
+
+Lemma begin_block_CI c votes absent evs c' : CI c -> begin_block c votes absent evs = inl c' -> CI c'.
 Proof.
   intros HCI. unfold begin_block. destruct (_ && _); [discriminate|].
-  destruct (handle_votes votes absent c) as [c1|] eqn:E; [|discriminate]. intros [= <-].
-  apply poa_begin_block_CI. eapply handle_votes_CI; eauto.
+  destruct (handle_votes votes absent c) as [c1|] eqn:E; [|discriminate].
+  destruct (handle_evidences evs c1) as [c2|] eqn:E2; [|discriminate]. intros [= <-].
+  apply poa_begin_block_CI. eapply handle_evidences_CI; [|exact E2]. eapply handle_votes_CI; eauto.
 Qed.
 
 (* ---- EndBlocker: state transitions keep CI ---- *)
